@@ -4,10 +4,12 @@ import re
 from collections import defaultdict
 from lib.facts import CallGraph
 from lib.mirq import Slice, calls_matching, edge_dominates, result_exits, switch_on_call_result
+from lib import guardsum as G
 
 TECHNIQUE = ("MIR CFG must-precede (dominance) of the CRC verifier over the section parser at every loader entry, propagation of the verifier's Err edge, "
-             "who-may-call for the parser, and an intra-procedural taint rule (file-derived values -> allocation sizes, indices, overflow-checked arithmetic) "
-             "over every body reachable from the loader entries, with dominating-comparison discharge")
+             "who-may-call for the parser, and a taint rule (file-derived values -> allocation sizes, indices, overflow-checked arithmetic) "
+             "over every body reachable from the loader entries, with dominating-comparison discharge; a comparison may sit in a private guard helper "
+             "(guard summaries: which parameters are compared on every Ok return / by a bool predicate; success-edge dominance at the call), named constants are resolved")
 EXPLANATION = (
     "Decides the structural clauses of C07: (R1) every function that calls the section parser first calls the CRC verifier on the same reader, the call "
     "dominates the parser call and the verifier's Err is propagated (`?`), and the parser is only called from such gated entries; the verifier reads the "
@@ -31,10 +33,14 @@ PASS = re.compile(r"(::into$|::from$|::try_into$|::unwrap$|::expect$|::clone$|::
 FILE_STRUCT = re.compile(r"ByteCodeHeader|ParsedConstEntry|ConstEntry|SymbolEntry|DictEntry|TypeEntry")
 
 
-def tainted_locals(b):
+SKIP_FN = re.compile(r"fmt::|Debug|Display|pretty|to_string|::write_|write_to|to_bytes|serialize|Serialize")
+
+
+def tainted_locals(b, seed=()):
     """locals that (transitively) hold a value derived from bytes of the file: results of read_u*/from_le_bytes,
-    fields of header/table structs, and anything computed from those (intra-procedural, flow-insensitive)"""
-    t = set()
+    fields of header/table structs, and anything computed from those (intra-procedural, flow-insensitive).
+    `seed`: parameters that receive a file-derived argument at a call site (only used for private guard helpers)"""
+    t = set(seed)
     for i, ty in enumerate(b.locals):
         if FILE_STRUCT.search(ty) and not ty.startswith("core::result") and "Vec<" not in ty[:20]:
             t.add(i)
@@ -68,56 +74,111 @@ def tainted_locals(b):
     return t
 
 
-def origin_places(b, local, defs=None, depth=0):
-    """places (local, projection) a temporary is a plain copy/cast of (field-sensitive): `_5 = copy (_2.len)`, `_6 = _5 as usize`"""
-    if defs is None:
-        defs = defaultdict(list)
-        for i, blk in enumerate(b.blocks):
-            for s in blk["s"]:
-                defs[s["d"][0]].append(s)
-    out = set()
-    if depth > 6:
-        return out
-    ds = defs.get(local, [])
-    if len(ds) != 1:
-        return out
-    s = ds[0]
-    if s.get("rk") in ("use", "cast") and s.get("src") and isinstance(s["src"][0], list):
+def _int_width(ty):
+    m = re.match(r"^[ui](8|16|32|64|128|size)$", ty)
+    return None if not m else (64 if m.group(1) == "size" else int(m.group(1)))
+
+
+def _value_chain(b, defs, local):
+    """follow plain copies and non-narrowing integer casts of a temporary back to where its value is produced:
+    returns (last local of the chain, the place it copies or None)"""
+    for _ in range(10):
+        ds = defs.get(local, [])
+        if len(ds) != 1:
+            return local, None
+        s = ds[0][1]
+        if s.get("k") == "call" or s.get("rk") not in ("use", "cast") or not s.get("src") or not isinstance(s["src"][0], list):
+            return local, None
         o = s["src"][0]
+        if s["rk"] == "cast":
+            w_to, w_from = _int_width(b.locals[s["d"][0]]), _int_width(b.locals[o[0]]) if not o[1] else None
+            if o[1] or w_to is None or w_from is None or w_to < w_from:
+                return local, None
         if o[1]:
-            out.add((o[0], o[1]))
-        else:
-            out |= origin_places(b, o[0], defs, depth + 1)
+            return local, (o[0], o[1])
+        local = o[0]
+    return local, None
+
+
+def sum_minus_addend(b, ops):
+    """`a - b` cannot underflow when a is an overflow-checked sum `x + y` of unsigned values (the `Some` payload of checked_add, or the
+    result of a checked `+`) and b is a copy of the same place as x or y: a - b is the other addend"""
+    if len(ops) != 2 or not all(isinstance(o, list) and not o[1] for o in ops):
+        return False
+    if not all((_int_width(b.locals[o[0]]) and b.locals[o[0]].startswith("u")) for o in ops):
+        return False
+    defs = b.defs()
+    la, pa = _value_chain(b, defs, ops[0][0])
+    lb, pb = _value_chain(b, defs, ops[1][0])
+    if pa is None or pb is None:
+        return False
+    src, proj = pa
+    addends = []
+    for _, d in defs.get(src, []):
+        if d.get("k") == "call" and (d.get("f") or d["tf"]).endswith("::checked_add") and proj == "@Some.0":
+            addends = d["args"]
+        elif d.get("rk") == "bin" and d.get("op") == "AddWithOverflow" and proj == ".0":
+            addends = d["src"]
+    if len(defs.get(src, [])) != 1:
+        return False
+    for x in addends:
+        if isinstance(x, list):
+            _, px = _value_chain(b, defs, x[0]) if not x[1] else (None, (x[0], x[1]))
+            if px is not None and px == pb:
+                return True
+    return False
+
+
+def _listed_keys(rep):
+    """keys of the listed findings / reviewed sites of this property (exact keys)"""
+    import json, os
+    from lib.report import VERIF
+    out = set(rep._reviewed())
+    p = os.path.join(VERIF, "known_findings.json")
+    if os.path.exists(p):
+        for e in json.load(open(p))["findings"]:
+            if e["property"] == rep.prop:
+                out.add(e["key"])
     return out
 
 
-def compared_locals(b, taint):
-    """for each block: set of tainted locals that have been tested by a comparison (switch on a bin Lt/Le/Gt/Ge/Eq/Ne result,
-    or checked_* .is_none/None branch) on every path to that block.  Approximated by dominance: a comparison block
-    dominates the use."""
-    comps = []  # (block, set of locals compared)
-    defs = defaultdict(list)
-    for i, blk in enumerate(b.blocks):
-        for s in blk["s"]:
-            defs[s["d"][0]].append((i, s))
-    for i, blk in enumerate(b.blocks):
-        term = blk["t"]
-        if term["k"] != "switch" or not isinstance(term["on"], list):
+def reattribute_moved_sites(rep, cg, bodies, per_fn):
+    """A site key names the function the site is in.  When a block that contains a LISTED undischarged site is extracted into a private
+    helper with a single call site, the same site would appear under the helper's name.  An undischarged group whose key is not listed
+    is therefore tried under the name of the helper's only caller (up to two levels), its lines added to the caller's own undischarged
+    group of the same kind: if THAT key is listed, the group is reported there.  Nothing is hidden by this: an additional site changes
+    the count in the key, and a key that is not listed either way is reported under the helper's own name as before."""
+    listed = _listed_keys(rep)
+    if not listed:
+        return per_fn
+    callers = defaultdict(set)
+    sites = defaultdict(int)
+    for b in bodies:
+        for _, t in b.calls():
+            c = t.get("f") or t["tf"]
+            if c in cg.bodies and c != b.fn:
+                callers[c].add(b.fn)
+                sites[c] += 1
+
+    def key_of(fn, kind, what, n):
+        return "%s|%s:%s:%s:x%d" % ("C07-R4" if kind == "alloc" else "C07-R3", fn, kind, what, n)
+    out = dict(per_fn)
+    for (fn, kind, what, ok), lines in sorted(per_fn.items()):
+        if ok or key_of(fn, kind, what, len(lines)) in listed:
             continue
-        on = term["on"][0]
-        for bi, s in defs.get(on, []):
-            if s.get("rk") == "bin" and s.get("op") in ("Lt", "Le", "Gt", "Ge", "Eq", "Ne"):
-                ls = {o[0] for o in s["src"] if isinstance(o, list)}
-                # a comparison with the constant 0 says nothing about an upper bound
-                if any(isinstance(o, dict) and str(o.get("c", "")).split("_")[0] in ("0", "const 0") for o in s["src"]):
-                    pl = set()
-                else:
-                    pl = set()
-                    for o in s["src"]:
-                        if isinstance(o, list):
-                            pl |= origin_places(b, o[0])
-                comps.append((i, ls, pl))
-    return comps
+        g = fn
+        for _ in range(2):
+            b = cg.bodies.get(g)
+            if b is None or b.pub or len(callers.get(g, ())) != 1 or sites.get(g) != 1:
+                break
+            g = next(iter(callers[g]))
+            own = out.get((g, kind, what, False), []) if (g, kind, what, False) in per_fn or (g, kind, what, False) in out else []
+            if key_of(g, kind, what, len(own) + len(lines)) in listed:
+                out[(g, kind, what, False)] = sorted(own + lines)
+                del out[(fn, kind, what, ok)]
+                rep.note("site-moved-into-helper", {"site": "%s %s" % (kind, what), "helper": fn, "reported_under": g})
+                break
+    return out
 
 
 def run(F, rep, tier):
@@ -129,6 +190,8 @@ def run(F, rep, tier):
     rep.rule("C07-R3", "file-derived value used as a Vec/slice index or in overflow-checked arithmetic without a dominating comparison (panic site reachable from the loader)")
     rep.rule("C07-R4", "file-derived value used as an allocation size without a dominating comparison against a length derived from the input (unbounded allocation)")
 
+    consts = G.Consts(F, crate)
+    sums = G.Summaries(cg, consts)
     # ---- roles
     parsers = [b for b in bodies if any(s["adt"].endswith("::ParsedProgram") for _, s in b.aggs()) and calls_matching(b, r"Read::read_exact$|ReadBytesExt::read_u")]
     verifiers = [b for b in bodies if calls_matching(b, r"^crc32fast::") and calls_matching(b, r"ReadBytesExt::read_u32$|Read::read_exact$")
@@ -163,29 +226,23 @@ def run(F, rep, tier):
                 if not (r1 & r2):
                     why = "the verifier and the parser do not read the same reader"
                     continue
-                # Err propagated: result -> Try::branch, and the parser call is dominated by the Continue edge
-                d = vt["d"][0]
-                br = [(i, t) for i, t in b.calls() if (t.get("f") or t["tf"]).endswith("Try>::branch") and any(isinstance(a, list) and a[0] == d for a in t["args"])]
-                if not br:
+                # Err propagated: the parser call is dominated by the success edge of the verifier's result (`?` Continue edge, the Ok arm
+                # of a match / if-let on it, or the fall-through of unwrap) and is unreachable from the failure side
+                edges = sums.success_edges(b, vi, vt, "result")
+                if not edges:
                     why = "the verifier's result is not propagated with `?` (its Err is dropped)"
                     continue
-                bi, bt = br[0]
-                # the switch after branch: Break target must reach an err exit and not the parser call
-                nb = bt.get("t")
-                sw = b.blocks[nb]["t"] if nb is not None else None
-                if not sw or sw["k"] != "switch":
-                    why = "cannot find the `?` branch"
-                    continue
-                cont = [tg for v, tg in sw["targets"] if v == 0]
-                brk = [tg for v, tg in sw["targets"] if v == 1] or [sw["else"]]
-                if not cont:
-                    cont = [sw["else"]]
-                if not edge_dominates(b, nb, cont[0], pi):
-                    why = "the parser call is reachable without passing the verifier's Ok edge"
-                    continue
-                reach_brk = b.reachable_from([brk[0]], avoid={cont[0]})
-                if pi in reach_brk:
-                    why = "the parser is still called when verification fails"
+                passed = False
+                for sw, okt in edges:
+                    if not edge_dominates(b, sw, okt, pi):
+                        why = "the parser call is reachable without passing the verifier's Ok edge"
+                        continue
+                    others = [x for x in b.succ(sw) if x != okt]
+                    if pi in b.reachable_from(others, avoid={okt}):
+                        why = "the parser is still called when verification fails"
+                        continue
+                    passed = True
+                if not passed:
                     continue
                 good = True
                 break
@@ -205,7 +262,7 @@ def run(F, rep, tier):
                     roots = set()
                     for o in s["src"]:
                         roots |= {r[1] for r in sl.roots(o) if r[0] == "call"}
-                    if any(r.startswith("crc32fast") for r in roots) and any(r.endswith("read_u32") for r in roots):
+                    if any(r.startswith("crc32fast") for r in roots) and any(re.search(r"read_u32$|u32>?::from_[lb]e_bytes$", r) for r in roots):
                         t = blk["t"]
                         if t["k"] == "switch":
                             false_t = [tgt for val, tgt in t.get("targets", []) if val == 0]
@@ -219,10 +276,13 @@ def run(F, rep, tier):
                                     cmp_ok = True
         rep.check(cmp_ok, "C07-R1", "%s:compares-hash-with-trailer" % v.fn,
                   "the verifier does not branch to Err on (hash of the payload != stored trailer)", v.where(), sample={"hash_calls": len(hashes), "trailer_reads": len(reads)})
-        # the hashed buffer length is total_len - 4 : from_elem size derives from a Sub with constant 4 of the length parameter
+        # the hashed buffer length is total_len - 4 : a subtraction of the constant 4 (literal or named constant) from the length parameter
         sub4 = False
         for i, s in v.stmts():
-            if s.get("rk") == "bin" and s.get("op") in ("Sub", "SubWithOverflow", "SubUnchecked") and any(isinstance(o, dict) and o.get("c") == "4" for o in s["src"]):
+            if s.get("rk") == "bin" and s.get("op") in ("Sub", "SubWithOverflow", "SubUnchecked") and len(s["src"]) == 2 and consts.operand_int(s["src"][1]) == 4:
+                sub4 = True
+        for i, t in v.calls():
+            if re.search(r"::(checked|saturating|wrapping)_sub$", t.get("f") or t["tf"]) and len(t["args"]) == 2 and consts.operand_int(t["args"][1]) == 4:
                 sub4 = True
         rep.check(sub4, "C07-R1", "%s:hashes-all-but-trailer" % v.fn, "the verifier does not hash exactly len-4 bytes", v.where())
 
@@ -233,16 +293,42 @@ def run(F, rep, tier):
     seen_fn = set()
     n_sites = 0
     per_fn = defaultdict(list)
+    # a bound check extracted into a private helper (`check(off, len, total)?`) takes the file-derived values as arguments: the taint
+    # follows them into the parameters of such guard helpers (and only of those), so the arithmetic of the extracted check stays a site
+    seeds = defaultdict(set)
+    work = list(local)
+    for _ in range(3):
+        nxt = set()
+        for b in work:
+            if SKIP_FN.search(b.fn):
+                continue
+            taint = tainted_locals(b, seeds.get(b.fn, ()))
+            if not taint:
+                continue
+            for i, t in b.calls():
+                cal = t.get("f") or t["tf"]
+                if cal == b.fn or cal not in cg.bodies or not any(isinstance(a, list) and a[0] in taint for a in t["args"]):
+                    continue
+                if not sums.summary(cal):
+                    continue
+                for k, a in enumerate(t["args"]):
+                    if isinstance(a, list) and a[0] in taint and (k + 1) not in seeds[cal] and re.search(r"^(u|i)(8|16|32|64|128|size)$", cg.bodies[cal].locals[k + 1]):
+                        seeds[cal].add(k + 1)
+                        nxt.add(cal)
+        work = [cg.bodies[f] for f in sorted(nxt)]
+        if not work:
+            break
+    local = local + [cg.bodies[f] for f in sorted(seeds) if cg.bodies[f] not in local]
     for b in local:
         if b.fn in seen_fn:
             continue
         seen_fn.add(b.fn)
-        if re.search(r"fmt::|Debug|Display|pretty|to_string|::write_|write_to|to_bytes|serialize|Serialize", b.fn):
+        if SKIP_FN.search(b.fn):
             continue
-        taint = tainted_locals(b)
+        taint = tainted_locals(b, seeds.get(b.fn, ()))
         if not taint:
             continue
-        comps = compared_locals(b, taint)
+        tests = sums.tests(b)
         sl = Slice(b, passthrough=PASS)
 
         def discharged(blk_i, locs):
@@ -251,13 +337,14 @@ def run(F, rep, tier):
                 feeding |= sl.locals_feeding([l, ""]) | {l}
             places = set()
             for l in feeding:
-                places |= origin_places(b, l)
-            for ci, cl, pl in comps:
-                if b.dominates(ci, blk_i) and ci != blk_i:
-                    if cl & feeding & taint:
-                        return True
-                    if pl & places and any(p_[0] in taint for p_ in pl & places):
-                        return True      # the same field of the same file structure was compared (through another temporary)
+                places |= G.origins(b, l)
+            for ts in tests:
+                if not ts.dominates(blk_i):
+                    continue
+                if ts.locals & feeding & taint:
+                    return True
+                if any(p_[0] in taint for p_ in ts.places & places):
+                    return True      # the same field of the same file structure was compared (through another temporary, or inside a guard helper)
             return False
         for i, t in b.calls():
             cal = t.get("f") or t["tf"]
@@ -282,9 +369,10 @@ def run(F, rep, tier):
                     feeding |= sl.locals_feeding([l, ""]) | {l}
                 if feeding & taint:
                     n_sites += 1
-                    ok = discharged(i, locs)
+                    ok = discharged(i, locs) or (t["msg"] == "Overflow(Sub)" and sum_minus_addend(b, t["ops"]))
                     per_fn[(b.fn, "assert", t["msg"], ok)].append(t["l"])
     rep.floor("C07-R3", "file-derived allocation/index/arithmetic sites found under the loader", n_sites, 20)
+    per_fn = reattribute_moved_sites(rep, cg, bodies, per_fn)
     for (fn, kind, what, ok), lines in sorted(per_fn.items()):
         rule = "C07-R4" if kind == "alloc" else "C07-R3"
         b = cg.bodies[fn]
@@ -356,7 +444,7 @@ def run(F, rep, tier):
             rep.check(ww == rr, "C07-R2", "header:write-read-widths", "header is written as %s but read as %s" % (ww, rr), sample={"widths": ww})
             if hsize is not None:
                 rep.check(total(hw) == hsize, "C07-R2", "header:size-constant", "ByteCodeHeader::write_to writes %d bytes but HEADER_SIZE = %s" % (total(hw), hsize), sample={"written": total(hw), "HEADER_SIZE": hsize})
-    run_r5(F, rep, crate, cg)
+    run_r5(F, rep, crate, cg, consts)
     run_r6(F, rep, crate, tier)
     from rules.c07_fields import run_r7, run_r8, run_r9
     run_r7(F, rep, crate)
@@ -366,74 +454,324 @@ def run(F, rep, tier):
     c07_sizes.run(F, rep, F.syn(crate))
 
 
-def _int_eval(e):
-    from lib.facts import is_node
-    if not is_node(e):
-        return None
-    if e[0] == "int":
-        try:
-            return int(re.sub(r"[^0-9].*$", "", str(e[1])))
-        except ValueError:
+# ---------------------------------------------------------------- R5: truncation guards vs. instruction sizes
+#
+# The guards are recognised by WHAT they compare, not by the names of the locals involved.  Walking the statements of one decoding step in
+# order, every expression is evaluated to a small symbolic value over the bytes of the stream:
+#   ("len",)      the length of the buffer behind the reader              (`cur.get_ref().len()`, also through a hoisted local)
+#   ("pos", c)    the reader's position: start of the instruction + c     (`cur.position()`, c = bytes read so far in this step)
+#   ("rem", k)    bytes left at the start of the instruction, minus k     (`len - pos`, `rem - 1`, ..)
+#   ("int", n)    an integer (literal, named constant, arithmetic of those)
+# A statement `if <rem(k) < N> { return Err(..) }` (any equivalent spelling: flipped, negated, `pos + N > len`, one disjunct of `||`)
+# requires N + k bytes from the start of the instruction.
+
+_READ_W = re.compile(r"^read_(u8|u16|u32|u64|u128|i8|i16|i32|i64|i128|f32|f64)$")
+
+
+class _Step:
+    def __init__(self, consts, mod, readers):
+        self.consts = consts
+        self.mod = mod
+        self.readers = readers      # rendered receivers of the read_* calls (the cursor)
+        self.env = {}
+        self.consumed = 0
+
+    def copy(self):
+        c = _Step(self.consts, self.mod, self.readers)
+        c.env = dict(self.env)
+        c.consumed = self.consumed
+        return c
+
+    def is_reader(self, e):
+        from lib.facts import render, strip_refs
+        return render(strip_refs(e)) in self.readers
+
+    def ev(self, e):
+        from lib.facts import is_node
+        if not is_node(e):
             return None
-    if e[0] == "paren":
-        return _int_eval(e[1])
-    if e[0] == "bin" and e[1] in ("+", "*", "-"):
-        a, b = _int_eval(e[2]), _int_eval(e[3])
+        t = e[0]
+        if t == "int":
+            try:
+                return ("int", int(re.sub(r"[^0-9].*$", "", str(e[1]))))
+            except ValueError:
+                return None
+        if t == "path":
+            if e[1] in self.env:
+                return self.env[e[1]]
+            v = self.consts.value(e[1], self.mod)
+            return ("int", v) if v is not None else None
+        if t in ("paren", "cast"):
+            return self.ev(e[1])
+        if t == "ref" or (t == "un" and e[1] == "*"):
+            return self.ev(e[2])
+        if t == "try":
+            return self.ev(e[1])
+        if t == "mcall":
+            name, recv, args = e[2], e[1], e[4]
+            if name in ("get_ref", "get_mut", "into_inner") and self.is_reader(recv):
+                return ("buf",)
+            if name in ("as_ref", "as_slice", "clone", "to_owned", "into", "unwrap", "try_into", "min") and not (name == "min" and args):
+                return self.ev(recv)
+            if name == "len" and not args and self.ev(recv) == ("buf",):
+                return ("len",)
+            if name == "position" and not args and self.is_reader(recv):
+                return ("pos", self.consumed)
+            if name in ("saturating_sub", "wrapping_sub") and len(args) == 1:
+                return self.arith("-", self.ev(recv), self.ev(args[0]))
+            if name in ("saturating_add", "wrapping_add") and len(args) == 1:
+                return self.arith("+", self.ev(recv), self.ev(args[0]))
+            return None
+        if t == "call":
+            from lib.facts import path_of
+            p = path_of(e[1]) or ""
+            if re.search(r"(^|::)(from|try_from)$", p) and len(e[2]) == 1:
+                return self.ev(e[2][0])
+            return None
+        if t == "bin" and e[1] in ("+", "-", "*", "/"):
+            return self.arith(e[1], self.ev(e[2]), self.ev(e[3]))
+        return None
+
+    @staticmethod
+    def arith(op, a, b):
         if a is None or b is None:
             return None
-        return a + b if e[1] == "+" else a * b if e[1] == "*" else a - b
-    return None
+        if a[0] == "int" and b[0] == "int":
+            try:
+                return ("int", {"+": a[1] + b[1], "-": a[1] - b[1], "*": a[1] * b[1], "/": a[1] // b[1] if b[1] else 0}[op])
+            except KeyError:
+                return None
+        if op == "-":
+            if a[0] == "len" and b[0] == "pos":
+                return ("rem", b[1])
+            if a[0] in ("rem", "pos") and b[0] == "int":
+                return (a[0], a[1] + b[1]) if a[0] == "rem" else ("pos", a[1] - b[1])
+        if op == "+":
+            if a[0] == "pos" and b[0] == "int":
+                return ("pos", a[1] + b[1])
+            if a[0] == "int" and b[0] == "pos":
+                return ("pos", a[1] + b[1])
+            if a[0] == "rem" and b[0] == "int":
+                return ("rem", a[1] - b[1])
+        return None
+
+    def reads_in(self, node):
+        """bytes consumed by the read_* calls of a statement that are not inside a nested loop / closure / match arm"""
+        from lib.facts import is_node
+        n = 0
+        st = [node]
+        while st:
+            x = st.pop()
+            if not isinstance(x, list):
+                continue
+            if is_node(x):
+                if x[0] in ("for", "while", "loop", "closure", "match", "if"):
+                    if x[0] in ("match", "if"):
+                        st.append(x[1])      # the scrutinee / condition is evaluated unconditionally
+                    continue
+                if x[0] == "mcall":
+                    m = _READ_W.match(x[2])
+                    if m and self.is_reader(x[1]):
+                        from lib import codec as C
+                        n += C.W[m.group(1)]
+            st.extend(y for y in x if isinstance(y, list))
+        return n
+
+    def required(self, cond):
+        """[(bytes required from the start of the instruction or None, offset k)] for every `remaining < N` test in a guard condition"""
+        from lib.facts import is_node
+        out = []
+        if not is_node(cond):
+            return out
+        if cond[0] == "paren":
+            return self.required(cond[1])
+        if cond[0] == "bin" and cond[1] == "||":
+            return self.required(cond[2]) + self.required(cond[3])
+        neg = False
+        while is_node(cond) and ((cond[0] == "un" and cond[1] == "!") or cond[0] == "paren"):
+            if cond[0] == "un":
+                neg = not neg
+                cond = cond[2]
+            else:
+                cond = cond[1]
+        if not (is_node(cond) and cond[0] == "bin" and cond[1] in ("<", "<=", ">", ">=")):
+            return out
+        op, a, b = cond[1], self.ev(cond[2]), self.ev(cond[3])
+        if neg:
+            op = {"<": ">=", "<=": ">", ">": "<=", ">=": "<"}[op]
+        if op in (">", ">="):                      # write every test as  small OP big
+            op, a, b = {">": "<", ">=": "<="}[op], b, a
+            big_first = True
+        # now: a OP b with OP in (<, <=); the guard fires (error) when it holds
+        if a is not None and a[0] == "rem":
+            if b is not None and b[0] == "int":
+                out.append((b[1] + a[1] + (1 if op == "<=" else 0), a[1]))
+            else:
+                out.append((None, a[1]))
+        elif a is not None and a[0] == "len" and b is not None and b[0] == "pos":
+            # len < pos + n  <=>  remaining at the start < c : requires c bytes (one more for <=)
+            out.append((b[1] + (1 if op == "<=" else 0), 0))
+        return out
 
 
-def _err_guards(stmts, off):
-    """top-level `if VAR < N { .. return Err .. }` statements -> [(var, N + offset(var), text)]"""
-    from lib.facts import is_node, walk, render
+def _ends_in_err(stmts):
+    """the block leaves the function with an error: its last statement is `return Err(..)` / a tail `Err(..)` / `Err(..)?`"""
+    from lib.facts import render, is_node
+    if not stmts:
+        return False
+    last = stmts[-1]
+    e = last[1] if last[0] == "expr" and is_node(last[1]) else None
+    if e is None:
+        return False
+    if e[0] == "ret":
+        return e[1] is not None and render(e[1]).startswith("Err(")
+    if e[0] == "try":
+        return render(e[1]).startswith("Err(")
+    return render(e).startswith("Err(") and not last[2]
+
+
+def _block_stmts(e):
+    from lib.facts import is_node
+    if is_node(e) and e[0] in ("block", "unsafe"):
+        return e[1]
+    return [["expr", e, False]]
+
+
+def _linear(stmts):
+    """guard clauses and nested ifs are the same thing: `if c { A } else { return Err }` == `if !c { return Err } A` and
+    `if c { return Err } else { B }` == `if c { return Err } B`; plain nested blocks are spliced in"""
+    from lib.facts import is_node
     out = []
     for st in stmts:
-        if st[0] != "expr" or not is_node(st[1]) or st[1][0] != "if":
+        e = st[1] if st[0] == "expr" and is_node(st[1]) else None
+        if e is not None and e[0] == "if" and e[3] is not None:
+            els = _block_stmts(e[3])
+            if _ends_in_err(els) and not _ends_in_err(e[2]):
+                out.append(["expr", ["if", ["un", "!", ["paren", e[1]]], els, None], False])
+                out.extend(_linear(e[2]))
+                continue
+            if _ends_in_err(e[2]) and not _ends_in_err(els):
+                out.append(["expr", ["if", e[1], e[2], None], False])
+                out.extend(_linear(els))
+                continue
+        if e is not None and e[0] in ("block", "unsafe"):
+            out.extend(_linear(e[1]))
             continue
-        c = st[1][1]
-        if not (is_node(c) and c[0] == "bin" and c[1] in ("<", "<=") and is_node(c[2]) and c[2][0] == "path"):
-            continue
-        if not any(n[0] == "ret" and n[1] is not None and render(n[1]).startswith("Err(") for s2 in st[1][2] for n in walk(s2)):
-            continue
-        v = c[2][1]
-        n = _int_eval(c[3])
-        if v in off and n is not None:
-            out.append((v, n + off[v] + (1 if c[1] == "<=" else 0), render(c)))
-        elif v in off:
-            out.append((v, None, render(c)))
+        out.append(st)
     return out
 
 
-def run_r5(F, rep, crate, cg):
+def _scan(step, stmts, stop=None):
+    """walk statements in order: bind locals, count consumed bytes, collect [(required, k, text)] of the error guards; stops at the
+    statement that contains node `stop` (returns True then)"""
+    from lib.facts import walk, render, is_node
+    guards = []
+    for st in _linear(stmts):
+        if stop is not None and any(x is stop for x in walk(st)):
+            if st[0] == "let" or st[0] == "expr":
+                # bytes read by the scrutinee of the match itself (`match OpCode::from_u8(cur.read_u8()?)`)
+                step.consumed += step.reads_in(stop[1])
+            return guards, True
+        if st[0] == "let":
+            if st[2] is not None:
+                v = step.ev(st[2])
+                pat = st[1]
+                while is_node(pat) and pat[0] == "ptype":
+                    pat = pat[1]
+                if is_node(pat) and pat[0] == "pident":
+                    if v is not None:
+                        step.env[pat[1]] = v
+                    else:
+                        step.env.pop(pat[1], None)
+                step.consumed += step.reads_in(st[2])
+        elif st[0] == "expr" and is_node(st[1]):
+            e = st[1]
+            if e[0] == "if" and e[3] is None and _ends_in_err(e[2]):
+                for need, k in step.required(e[1]):
+                    guards.append((need, k, render(e[1])))
+            step.consumed += step.reads_in(e)
+    return guards, False
+
+
+def run_r5(F, rep, crate, cg, consts=None):
     """C07-R5: the instruction decoder's truncation guards ask for no more bytes than the instruction occupies"""
     from lib.facts import find, walk, is_node, render, render_pat, path_of, last_seg
     from lib import codec as C
     from lib import fxn as X
     rep.rule("C07-R5", "decode_instructions: every `remaining < N => TruncatedInstruction` guard asks for at most the bytes the opcode's arm consumes (a stricter guard rejects a valid emitted file that ends with that instruction)")
     core = F.syn(crate)
-    dec = [it for it in core if it["k"] == "fn" and it["name"] == "decode_instructions"]
-    if not rep.check(len(dec) == 1, "C07-R5", "anchor:decode_instructions", "decode_instructions not found"):
+    consts = consts or G.Consts(F, crate)
+
+    def opcode_arms(m):
+        arms = {}
+        for a in m[2]:
+            mm = re.search(r"OpCode::(\w+)", render_pat(a[0]))
+            if mm and any(x[0] == "mcall" and _READ_W.match(x[2]) for x in walk(a[2])):
+                arms[mm.group(1)] = a
+        return arms
+    # the decoder: the function holding the match over opcodes whose arms read the operands (whatever it is called)
+    dec = []
+    for it in core:
+        if it["k"] in ("fn", "method") and it.get("body"):
+            for m in find(it["body"], "match"):
+                arms = opcode_arms(m)
+                if len(arms) >= 5:
+                    dec.append((it, m, arms))
+                    break
+    if not rep.check(len(dec) == 1, "C07-R5", "anchor:decode_instructions", "instruction decoder (match over OpCode whose arms read the operands) not found (%d)" % len(dec)):
         return
-    loops = list(find(dec[0]["body"], "while")) + list(find(dec[0]["body"], "loop"))
-    if not rep.check(len(loops) >= 1, "C07-R5", "anchor:loop", "decode loop not found"):
-        return
-    body = loops[0][2] if loops[0][0] == "while" else loops[0][1]
-    off = {}
-    for st in body:
-        if st[0] == "let" and st[1][0] == "pident" and st[2] is not None:
-            txt = render(st[2])
-            if re.search(r"len\(\)\s*-\s*\(?\w+", txt) and "position" not in txt.split("-")[0]:
-                off[st[1][1]] = 0
-            elif is_node(st[2]) and st[2][0] == "bin" and st[2][1] == "-" and is_node(st[2][2]) and st[2][2][0] == "path" and st[2][2][1] in off and _int_eval(st[2][3]) is not None:
-                off[st[1][1]] = off[st[2][2][1]] + _int_eval(st[2][3])
-    top = _err_guards(body, off)
+    it, match, arms = dec[0]
+    readers = {render(x[1]) for a in arms.values() for x in walk(a[2]) if x[0] == "mcall" and _READ_W.match(x[2])}
+
+    def loop_around(body, node):
+        """innermost loop of `body` that contains `node`: (loop body statements, statements of `body` before the loop)"""
+        best = None
+        for lp in walk(body):
+            if lp[0] in ("while", "loop", "for"):
+                lb = lp[3] if lp[0] == "for" else lp[2] if lp[0] == "while" else lp[1]
+                if any(x is node for x in walk(lb)):
+                    best = lb          # pre-order: later hits are nested deeper
+        return best
+    step = _Step(consts, it.get("mod"), readers)
+    chain = []         # statement lists scanned in order up to the match
+    lb = loop_around(it["body"], match)
+    if lb is not None:
+        pre_fn, pre_item = it["body"], it
+        chain.append((lb, match))
+    else:
+        # the per-instruction step was extracted: the loop is in the caller
+        caller = None
+        for c in core:
+            if c["k"] in ("fn", "method") and c.get("body") and c is not it:
+                for x in walk(c["body"]):
+                    if (x[0] == "call" and last_seg(path_of(x[1]) or "") == it["name"]) or (x[0] == "mcall" and x[2] == it["name"]):
+                        l2 = loop_around(c["body"], x)
+                        if l2 is not None:
+                            caller = (c, l2, x)
+        if caller is None:
+            rep.bad("C07-R5", "anchor:loop", "decode loop not found")
+            return
+        pre_fn, pre_item = caller[0]["body"], caller[0]
+        readers |= {render(a) for a in (caller[2][2] if caller[2][0] == "call" else caller[2][4]) if is_node(a)}
+        chain.append((caller[1], caller[2]))
+        chain.append((it["body"], match))
+    rep.ok("C07-R5", "anchor:loop")
+    # loop-invariant locals bound before the loop (`let stream_len = cur.get_ref().len();`)
+    for st in pre_fn:
+        if st[0] == "let" and st[2] is not None and is_node(st[1]) and st[1][0] == "pident":
+            v = step.ev(st[2])
+            if v is not None and v[0] in ("len", "buf", "int"):
+                step.env[st[1][1]] = v
+    top = []
+    for stmts, stop in chain:
+        g, _ = _scan(step, stmts, stop)
+        top += g
+    base = step.consumed          # bytes of the instruction read before the arms (the opcode)
     # which opcodes can a compiled program contain: EncodedInstr variant -> OpCode (from the encoder), emitted iff its emit_* method has a caller
     enc_op = {}
-    for it in core:
-        if it["k"] == "method" and it["name"] == "write_to" and X.type_head(it["self"]) == "EncodedInstr":
-            for v, a in C.arms_of(it["body"], "EncodedInstr").items():
+    for it2 in core:
+        if it2["k"] == "method" and it2["name"] == "write_to" and X.type_head(it2["self"]) == "EncodedInstr":
+            for v, a in C.arms_of(it2["body"], "EncodedInstr").items():
                 ops = [re.search(r"OpCode::(\w+)", x[1]).group(1) for x in walk(a[2]) if x[0] == "path" and re.search(r"OpCode::(\w+)", x[1])]
                 if ops:
                     enc_op[v] = ops[0]
@@ -445,44 +783,31 @@ def run_r5(F, rep, crate, cg):
                 mm = re.search(r"CompileCtx::(emit_\w+)$", t.get("f") or t.get("tf") or "")
                 if mm:
                     called.add(mm.group(1))
-    for it in core:
-        if it["k"] == "method" and it["name"].startswith("emit_") and X.type_head(it["self"]) == "CompileCtx":
-            vs = {re.match(r"EncodedInstr::(\w+)", s[1]).group(1) for s in find(it["body"], "struct") if re.match(r"EncodedInstr::(\w+)", s[1])}
-            if it["name"] in called:
+    for it2 in core:
+        if it2["k"] == "method" and it2["name"].startswith("emit_") and X.type_head(it2["self"]) == "CompileCtx":
+            vs = {re.match(r"EncodedInstr::(\w+)", s[1]).group(1) for s in find(it2["body"], "struct") if re.match(r"EncodedInstr::(\w+)", s[1])}
+            if it2["name"] in called:
                 emitted |= {enc_op.get(v) for v in vs}
     rep.floor("C07-R5", "opcodes a compiled program can contain", len(emitted - {None}), 5)
     n = 0
-    for m in find(body, "match"):
-        arms = {}
-        for a in m[2]:
-            mm = re.search(r"OpCode::(\w+)", render_pat(a[0]))
-            if mm:
-                arms[mm.group(1)] = a
-        if len(arms) < 5:
-            continue
-        for op, a in sorted(arms.items()):
-            fixed = 0
-            loop_nodes = [id(x) for lp in (list(find(a[2], "for")) + list(find(a[2], "while"))) for x in walk(lp)]
-            for nnode in walk(a[2]):
-                if nnode[0] == "mcall" and id(nnode) not in loop_nodes:
-                    w = re.match(r"read_(u8|u16|u32|u64|i8|i16|i32|i64|f32|f64)$", nnode[2])
-                    if w:
-                        fixed += C.W[w.group(1)]
-            has_loop = bool(loop_nodes)
-            size = 1 + fixed
-            stm = a[2][1] if is_node(a[2]) and a[2][0] == "block" else []
-            for scope, guards in (("instruction", top if op in emitted else []), ("arm", _err_guards(stm, off))):
-                for v, need, txt in guards:
-                    n += 1
-                    key = "%s:%s:%s" % (op, scope, v)
-                    if need is None:
-                        rep.ok("C07-R5", key, sample={"opcode": op, "guard": txt, "verdict": "bound depends on a decoded count"})
-                        continue
-                    rep.check(need <= size or (has_loop and False), "C07-R5", key,
-                              "decode_instructions, opcode %s: the guard `%s` requires %d bytes from the start of the instruction, but the instruction occupies %d%s: a valid program that ends with this instruction is rejected as truncated" % (
-                                  op, txt, need, size, " (+ its variable-length tail)" if has_loop else ""),
-                              "decode_instructions (%s)" % crate, sample={"opcode": op, "guard": txt, "required": need, "instruction_bytes": size})
-        break
+    for op, a in sorted(arms.items()):
+        arm_step = step.copy()
+        stm = a[2][1] if is_node(a[2]) and a[2][0] == "block" else [["expr", a[2], False]]
+        fixed = sum(arm_step.copy().reads_in(s_) for s_ in _linear(stm))
+        has_loop = any(x[0] in ("for", "while", "loop") for x in walk(a[2]))
+        size = base + fixed
+        arm_guards, _ = _scan(arm_step, stm)
+        for scope, guards in (("instruction", top if op in emitted else []), ("arm", arm_guards)):
+            for need, k, txt in guards:
+                n += 1
+                key = "%s:%s:remaining@%d" % (op, scope, k)
+                if need is None:
+                    rep.ok("C07-R5", key, sample={"opcode": op, "guard": txt, "verdict": "bound depends on a decoded count"})
+                    continue
+                rep.check(need <= size, "C07-R5", key,
+                          "instruction decoder, opcode %s: the guard `%s` requires %d bytes from the start of the instruction, but the instruction occupies %d%s: a valid program that ends with this instruction is rejected as truncated" % (
+                              op, txt, need, size, " (+ its variable-length tail)" if has_loop else ""),
+                          "%s (%s)" % (it["name"], crate), sample={"opcode": op, "guard": txt, "required": need, "instruction_bytes": size})
     rep.floor("C07-R5", "truncation guards compared with instruction sizes", n, 5)
 
 
